@@ -148,6 +148,7 @@ def floatAux (n mc : Nat) : AuxFns Float where
   allFinite := fun v => (List.range (n * mc)).all (fun i => (v i).isFinite)
   absPow0 := fun a => Float.pow (Float.abs a) 0.0
   ge := fun a b => a >= b
+  asg := fun v => if n * mc < 100 then 1.0 * v + 0.0 * v else v
 
 def parseAuxId (name : String) (f : String) : Option AuxId :=
   let b (i : Nat) : Bool := (f.toList.getD i '0') = '1'
